@@ -38,6 +38,17 @@ class Struct:
         return "Struct(%r)" % (self.f,)
 
 
+class Closure(Struct):
+    """A closure value: captured fields + the source span that identifies its body in the MIR dump."""
+
+    def __init__(self, span, fields):
+        Struct.__init__(self, fields)
+        self.span = span
+
+    def __repr__(self):
+        return "Closure(%s, %r)" % (self.span, self.f)
+
+
 class Ref:
     def __init__(self, cell):
         self.cell = cell
@@ -53,6 +64,30 @@ class EnumV:
 
     def __repr__(self):
         return "Enum(%r,%r)" % (self.variant, self.fields)
+
+
+class Coroutine:
+    """An async-fn state machine: upvars (`(*c).N`), per-suspension-point saved locals
+    (`((*c) as variant#K).N`) and the resume state (discriminant; 0 unresumed, 1 returned, 2 panicked)."""
+
+    def __init__(self, upvars=None, state=0):
+        self.up = dict(upvars or {})
+        self.saved = {}
+        self.state = state
+
+    def field_cell(self, i):
+        return self.up.setdefault(i, Cell())
+
+    def variant_cell(self, variant, i):
+        # rustc may overlay the same saved local in several variants: key by field only within a variant
+        return self.saved.setdefault((variant, i), Cell())
+
+    def discriminant(self, path):
+        import z3
+        return z3.BitVecVal(self.state, 32)
+
+    def __repr__(self):
+        return "Coroutine(state=%d)" % self.state
 
 
 UNIT = ("unit",)
@@ -84,8 +119,29 @@ ENUMS = {
 }
 
 
+def strip_generics(txt):
+    """Remove every balanced `::<...>` / `<...>` group from a path (`->` inside fn types is kept balanced)."""
+    out = []
+    depth = 0
+    i = 0
+    while i < len(txt):
+        ch = txt[i]
+        if ch == "<":
+            depth += 1
+            if out[-2:] == [":", ":"] and depth == 1:
+                del out[-2:]
+        elif ch == ">" and not (i > 0 and txt[i - 1] == "-"):
+            depth -= 1
+        elif depth == 0:
+            out.append(ch)
+        i += 1
+    return "".join(out)
+
+
 def clone_val(v):
     """By-value copy of aggregates (references stay shared)."""
+    if isinstance(v, Closure):
+        return Closure(v.span, {k: Cell(clone_val(c.v)) for k, c in v.f.items()})
     if isinstance(v, Struct):
         return Struct({k: Cell(clone_val(c.v)) for k, c in v.f.items()})
     if isinstance(v, EnumV):
@@ -226,17 +282,19 @@ class Interp:
                     idx = i
             if idx is None:
                 # downcast without projection: (_5 as Some)
-                mm = re.match(r"^(.+) as (\w+)$", body)
+                mm = re.match(r"^(.+) as ([\w#]+)$", body)
                 if mm:
                     return self.place_cell(fr, mm.group(1))
                 raise Unsupported("place? " + s)
             base_field = body[:idx]
             j = base_field.rfind(".")
             base, fld = base_field[:j], base_field[j + 1:]
-            mm = re.match(r"^\((.+) as (\w+)\)$", base)
+            mm = re.match(r"^\((.+) as ([\w#]+)\)$", base)
             if mm:
                 c = self.place_cell(fr, mm.group(1))
                 ev = c.v
+                if isinstance(ev, Coroutine):
+                    return ev.variant_cell(mm.group(2), int(fld))
                 if not isinstance(ev, EnumV):
                     raise Unsupported("downcast of non-enum %s: %r" % (s, ev))
                 while len(ev.fields) <= int(fld):
@@ -265,10 +323,16 @@ class Interp:
             return z3.BoolVal(True)
         if txt == "false":
             return z3.BoolVal(False)
+        m = re.match(r"^ZeroSized: \{closure@([^}]*)\}$", txt)
+        if m:
+            return Closure(m.group(1), {})
         if txt == "()" or txt.startswith("ZeroSized"):
             return UNIT
         if txt.startswith('"') or txt.startswith("b\""):
             return ("opaque", txt)
+        ev = self.enum_variant(txt)
+        if ev is not None:
+            return EnumV(ev[1])
         key = txt
         if key in self.const_cache:
             return self.const_cache[key]
@@ -284,8 +348,15 @@ class Interp:
                 v = self.run_to_end(self.call_fn(f, [], path))
                 self.const_cache[key] = v
                 return v
-        for suffix, cands in (("::MAX", None),):
-            pass
+        # associated consts: `const <impl at file:span>::NAME: T = { body }` referenced as `Type::NAME`
+        cands = [f for n, f in self.fns.items() if n.startswith("const ") and n.endswith("::" + last)]
+        if len(cands) == 1:
+            try:
+                v = self.run_to_end(self.call_fn(cands[0], [], path))
+            except Exception:
+                v = ("opaque", txt)      # e.g. bitflags constants: only passed around, never inspected
+            self.const_cache[key] = v
+            return v
         m = re.match(r"^(?:core::num::<impl )?(\w+)>?::MAX$", txt) or re.match(r"^(\w+)::MAX$", txt)
         if m and m.group(1) in INT_TY:
             t = m.group(1)
@@ -295,11 +366,16 @@ class Interp:
 
     def operand(self, fr, s, path):
         s = s.strip()
+        if s.startswith("no_retag "):
+            s = s[len("no_retag "):]
         if s.startswith("copy "):
             return clone_val(self.place_cell(fr, s[5:]).v)
         if s.startswith("move "):
             return self.place_cell(fr, s[5:]).v
         if s.startswith("const "):
+            g = fr.get("__gconsts__")
+            if g and s[6:].strip() in g:
+                return g[s[6:].strip()]
             return self.const(s[6:], path)
         raise Unsupported("operand? " + s)
 
@@ -325,6 +401,10 @@ class Interp:
                 return table[op](a, b)
             raise Unsupported("bool binop " + op)
         signed = lhs_ty in SIGNED
+        if op == "Rem" and not signed and self.rem_hook is not None:
+            r = self.rem_hook(a, b)
+            if r is not None:
+                return r
         if op in ("Shl", "Shr", "ShlUnchecked", "ShrUnchecked"):
             if b.size() != a.size():
                 b = z3.ZeroExt(a.size() - b.size(), b) if b.size() < a.size() else z3.Extract(a.size() - 1, 0, b)
@@ -346,7 +426,7 @@ class Interp:
 
     def enum_variant(self, path_txt):
         """`Option::<T>::Some` / `std::task::Poll::<()>::Pending` -> (enum name, variant index)."""
-        clean = re.sub(r"::<[^>]*(?:<[^>]*>[^>]*)*>", "", path_txt)
+        clean = strip_generics(path_txt)
         parts = clean.split("::")
         if len(parts) >= 2 and parts[-2] in self.enums and parts[-1] in self.enums[parts[-2]]:
             return parts[-2], self.enums[parts[-2]][parts[-1]]
@@ -413,7 +493,7 @@ class Interp:
         m = re.match(r"^const (.+) as (\w+) \(IntToInt\)$", rhs)
         if m:
             return self.cast_int(self.const(m.group(1), path), m.group(2))
-        if rhs.startswith(("copy ", "move ", "const ")):
+        if rhs.startswith(("copy ", "move ", "const ", "no_retag ")):
             return self.operand(fr, rhs, path)
         # tuples
         if rhs.startswith("(") and rhs.endswith(")") and self.balanced(rhs[1:-1]):
@@ -440,6 +520,13 @@ class Interp:
         ev = self.enum_variant(rhs)
         if ev is not None:
             return EnumV(ev[1])
+        # closure aggregate: {closure@file:span} { capture: op, ... }
+        m = re.match(r"^\{closure@([^}]*)\} \{ (.*) \}$", rhs)
+        if m:
+            fields = {}
+            for i, part in enumerate(self.split_top(m.group(2))):
+                fields[i] = Cell(self.operand(fr, part.split(": ", 1)[1], path))
+            return Closure(m.group(1), fields)
         # struct aggregate: Name { a: op, b: op }
         m = re.match(r"^([\w:<>, &'()\[\]]+?) \{ (.*) \}$", rhs)
         if m:
@@ -452,6 +539,8 @@ class Interp:
         if m:
             parts = self.split_top(m.group(2)) if m.group(2).strip() else []
             return Struct({i: Cell(self.operand(fr, p, path)) for i, p in enumerate(parts)})
+        if re.match(r"^[A-Z]\w*$", rhs) or re.match(r"^[\w:]+::[A-Z]\w*$", rhs):
+            return ("variant", rhs)        # unit variant of an enum the property does not inspect
         raise Unsupported("rvalue? " + rhs)
 
     def operand_type(self, fr, s):
@@ -474,9 +563,34 @@ class Interp:
         except StopIteration as e:
             return e.value
 
-    def call_fn(self, fn, args, path, depth=0):
+    def generic_consts(self, fn, callee):
+        """Bind const generic parameters of an un-monomorphised MIR body (`const SET`) to the literal generic
+        arguments of the call (`set_has_result::<Strong, false>`), positionally."""
+        m = re.search(r"::<([^<>]*(?:<[^<>]*>[^<>]*)*)>$", callee)
+        if not m:
+            return None
+        lits = [a.strip() for a in self.split_top(m.group(1)) if re.fullmatch(r"true|false|-?\d+(?:_\w+)?", a.strip())]
+        if not lits:
+            return None
+        names = []
+        for stmts in fn.blocks.values():
+            for st in stmts:
+                for mm in re.finditer(r"\bconst ([A-Z][A-Z0-9_]*)\b(?!::)", st):
+                    n = mm.group(1)
+                    if n not in names and n not in self.consts and ("const " + n) not in self.fns:
+                        names.append(n)
+        if len(names) != len(lits):
+            return None
+        out = {}
+        for n, l in zip(names, lits):
+            out[n] = z3.BoolVal(l == "true") if l in ("true", "false") else z3.BitVecVal(int(l.split("_")[0]), 64)
+        return out
+
+    def call_fn(self, fn, args, path, depth=0, gconsts=None):
         self.called.add(fn.name)
         fr = {"__types__": fn.locals}
+        if gconsts:
+            fr["__gconsts__"] = gconsts
         for a, v in zip(fn.args, args):
             fr[a] = Cell(v)
         bb = "bb0"
@@ -486,9 +600,16 @@ class Interp:
             if steps > self.max_steps:
                 raise Unsupported("step bound exceeded in " + fn.name)
             stmts = fn.blocks[bb]
-            for st in stmts[:-1]:
-                self.stmt(fr, st, path)
-            nxt = yield from self.term(fr, stmts[-1], path, depth, fn)
+            try:
+                for st in stmts[:-1]:
+                    self.stmt(fr, st, path)
+                nxt = yield from self.term(fr, stmts[-1], path, depth, fn)
+            except (Infeasible, MirPanic, GeneratorExit):
+                raise
+            except Exception as e:
+                if not hasattr(e, "mir_where"):
+                    e.mir_where = "%s %s" % (fn.name, bb)      # innermost MIR location, for diagnostics
+                raise
             if nxt is None:
                 c = fr.get("_0")
                 return c.v if c is not None and c.v is not None else UNIT
@@ -504,7 +625,9 @@ class Interp:
         m = re.match(r"^discriminant\((.+)\) = (\d+)$", st)
         if m:
             c = self.place_cell(fr, m.group(1))
-            if isinstance(c.v, EnumV):
+            if isinstance(c.v, Coroutine):
+                c.v.state = int(m.group(2))
+            elif isinstance(c.v, EnumV):
                 c.v.variant = int(m.group(2))
             else:
                 c.v = EnumV(int(m.group(2)))
@@ -578,6 +701,17 @@ class Interp:
             v = yield from self.call(callee.strip(), args, path, depth, fr)
             self.place_cell(fr, dest).v = v
             return ret
+        m = re.match(r"^(.+?) = (.+\)) -> (bb\d+)$", t)
+        if m:
+            callee, argtxt = self.split_call(m.group(2))
+            args = [self.operand(fr, a, path) for a in self.split_top(argtxt)] if argtxt.strip() else []
+            for pat, f in self.summ:
+                if pat.search(callee.strip()):
+                    r = f(self, args, path, callee.strip())
+                    if hasattr(r, "__next__"):
+                        yield from r
+                    break
+            raise MirPanic("diverging call %s in %s" % (callee.strip(), fn.name))
         m = re.match(r"^(.+?) = (.+?)\((.*)\) -> unwind .*$", t)
         if m:
             # diverging call (panic!)
@@ -589,6 +723,100 @@ class Interp:
         raise Unsupported("terminator? " + t)
 
     drop_hook = None
+    rem_hook = None      # optional abstraction of unsigned Rem (see c09_timers.check_interval_tick)
+
+    def closure_fn(self, clo):
+        span = clo.span
+        for f in self.fns.values():
+            m = re.search(r"_1: (&(?:mut )?)?\{closure@" + re.escape(span) + r"\}", f.sig)
+            if m:
+                return f, m.group(1)
+        raise Unsupported("closure body for %s not in the MIR dump" % span)
+
+    def call_closure(self, clo, args, path, depth=0):
+        """Call a closure value with already-unpacked arguments."""
+        if isinstance(clo, Ref):
+            clo = clo.cell.v
+        if not isinstance(clo, Closure):
+            raise Unsupported("call of a non-closure value %r" % (clo,))
+        f, by_ref = self.closure_fn(clo)
+        self_arg = Ref(Cell(clo)) if by_ref else clo
+        return (yield from self.call_fn(f, [self_arg] + list(args), path, depth + 1))
+
+    def builtin(self, callee, args, path):
+        """Generic std plumbing that needs closure binding; returns a generator or NotImplemented."""
+        m = re.search(r" as Fn(?:Once|Mut)?<\(.*\)>>::call(?:_once|_mut)?$", callee)
+        if m:
+            tup = args[1]
+            unpacked = [tup.f[i].v for i in sorted(tup.f)] if isinstance(tup, Struct) else ([] if tup is UNIT else [tup])
+            return self.call_closure(args[0], unpacked, path)
+        if re.match(r"^Option::<.*>::map::<", callee):
+            def g():
+                ev = args[0]
+                if ev.variant == 0:
+                    return EnumV(0)
+                r = yield from self.call_closure(args[1], [ev.fields[0].v], path)
+                return EnumV(1, [Cell(r)])
+            return g()
+        if re.match(r"^Option::<.*>::get_or_insert_with::<", callee):
+            def g():
+                cell = args[0].cell
+                if cell.v.variant == 0:
+                    r = yield from self.call_closure(args[1], [], path)
+                    cell.v = EnumV(1, [Cell(r)])
+                return Ref(cell.v.fields[0])
+            return g()
+        if re.match(r"^Option::<.*>::(?:ok_or_else|unwrap_or_else)::<", callee):
+            def g():
+                ev = args[0]
+                if ev.variant == 1:
+                    return EnumV(0, [ev.fields[0]]) if "ok_or_else" in callee else ev.fields[0].v
+                r = yield from self.call_closure(args[1], [], path)
+                return EnumV(1, [Cell(r)]) if "ok_or_else" in callee else r
+            return g()
+        if re.match(r"^<(?:std::ops::)?Range<\w+> as IntoIterator>::into_iter$", callee):
+            def g2():
+                return args[0]
+                yield
+            return g2()
+        if re.match(r"^<(?:std::ops::)?Range<\w+> as Iterator>::next$", callee):
+            def g3():
+                r = args[0].cell.v
+                lo, hi = r.f[0].v, r.f[1].v
+                if path.decide(z3.ULT(lo, hi)):
+                    r.f[0].v = lo + z3.BitVecVal(1, lo.size())
+                    return EnumV(1, [Cell(lo)])
+                return EnumV(0)
+                yield
+            return g3()
+        m = re.match(r"^Poll::<.*>::(is_ready|is_pending)$", callee)
+        if m:
+            def g4():
+                ev = args[0].cell.v if isinstance(args[0], Ref) else args[0]
+                return z3.BoolVal((ev.variant == 0) == (m.group(1) == "is_ready"))
+                yield
+            return g4()
+        m = re.match(r"^(Option|Result)::<.*>::(is_some|is_none|is_ok|is_err)$", callee)
+        if m:
+            def g1():
+                ev = args[0].cell.v if isinstance(args[0], Ref) else args[0]
+                want = {"is_some": 1, "is_none": 0, "is_ok": 0, "is_err": 1}[m.group(2)]
+                return z3.BoolVal(ev.variant == want)
+                yield
+            return g1()
+        if re.search(r"(?:^|::|<impl )bool>?::then_some::<", callee):
+            def g0():
+                return EnumV(1, [Cell(args[1])]) if path.decide(args[0]) else EnumV(0)
+                yield
+            return g0()
+        if re.match(r"^Option::<.*>::is_some_and::<", callee):
+            def g():
+                ev = args[0]
+                if ev.variant == 0:
+                    return z3.BoolVal(False)
+                return (yield from self.call_closure(args[1], [ev.fields[0].v], path))
+            return g()
+        return NotImplemented
 
     @staticmethod
     def split_call(txt):
@@ -621,10 +849,13 @@ class Interp:
                 if hasattr(r, "__next__"):
                     r = yield from r
                 return r
+        b = self.builtin(callee, args, path)
+        if b is not NotImplemented:
+            return (yield from b)
         fn = self.resolve(callee)
         if fn is None:
             raise Unsupported("no summary/body for " + callee)
-        return (yield from self.call_fn(fn, args, path, depth + 1))
+        return (yield from self.call_fn(fn, args, path, depth + 1, self.generic_consts(fn, callee)))
 
     def resolve(self, callee):
         if self.resolver is not None:
